@@ -2,6 +2,8 @@
 from mirlib import *
 import width_rules
 import codec_rules
+import xml_rules
+import packet_rules
 
 TECHNIQUE = "expression-tree comparison of the bit-width formula at its three sites, of the stored form (value - min as little-endian u64, float to_le_bytes), of the reader's extraction window (u128 over 16 bytes, shift by bit phase) and mask/minimum reconstruction; structural rules for add_bits and append; zero-width wiring table"
 EXPLANATION = (
@@ -17,6 +19,7 @@ EXPLANATION = (
 
 
 def run(ctx):
+    ctx.rule("R6", "declared ranges reach the reader as written: defaults of omitted limits = spec, limits written and parsed as integers (shared with C03-R3 / C04-R4)")
     ctx.rule("R1", "bit width = ilog2(max as i128 - min as i128) + 1 at all three sites (0 when the range is not positive); mask (1<<bits)-1; value = masked + min in i128")
     ctx.rule("R2", "stored form: ((value - min) as u64).to_le_bytes() with integer_bits(min,max) bits; f32/f64 via to_le_bytes; reader extracts 32/64 bits and rebuilds with from_le_bytes")
     ctx.rule("R3", "zero-width records are synthesised from the record's own minimum; unpack dispatch per data type with the record's (min,max); stream i -> queue i")
@@ -32,4 +35,6 @@ def run(ctx):
         ctx.call(codec_rules.extract_window, prog, "R4")
         ctx.call(codec_rules.append_shape, prog, "R4")
         ctx.call(codec_rules.add_bits_shape, prog, "R5")
+        ctx.call(packet_rules.defaults_table, prog, "R6")
+        ctx.call(xml_rules.type_attributes, prog, "R6")
     ctx.cfg = None
